@@ -62,7 +62,7 @@ type FileHashes []FileHash
 // checkListedFilename reports whether a file name listed in a .dsc or
 // .changes is a plain name inside the directory of that control file.
 func checkListedFilename(name string) error {
-	if name == "" || name == "." || name == ".." || filepath.Base(name) != name {
+	if name == "" || name == "." || name == ".." || strings.ContainsRune(name, '/') || filepath.Base(name) != name {
 		return fmt.Errorf("Listed file name '%s' is not a plain file name", name)
 	}
 	return nil
